@@ -213,6 +213,8 @@ def _prints(lines, tag):
 # ------------------------------------------------------------------------------------------ evidence
 
 def write_evidence(pid, tier, seed, level, coverage, assumptions, wall, violations=0, extra=None):
+    if os.environ.get("VERIF_NO_EVIDENCE"):
+        return          # evaluation of seeded changes against a scratch worktree: never touch the evidence files
     os.makedirs(EVID, exist_ok=True)
     ev = {"property_id": pid, "tier": tier, "seed": int(seed), "level": level, "coverage": coverage,
           "assumptions": assumptions, "wall_s": round(wall, 2), "violations": int(violations)}
